@@ -18,12 +18,12 @@ ASSUMPTIONS = [
     'HashMap iteration order is arbitrary: all permutations of the remaining entries are explored (arity <= 5); for arity >= 7 all orders of maps with <= 3 entries, identity and reverse order of larger maps',
     '"sides that all agree" is read as the documented rule of the code: after cancellation exactly one distinct side value remains and at most one distinct base value (so [A,B,A,C,A] staying unresolved is not an alarm)',
 ]
-BUDGET = {'quick': 240, 'thorough': 3000}
+BUDGET = {'quick': 900, 'thorough': 3000}
 F = 'lib/src/merge.rs'
 
 def jobs(tier):
     out = []
-    for n in ([1, 3, 5, 7, 9] if tier == 'quick' else [1, 3, 5, 7, 9, 11]):
+    for n in ([1, 3, 5, 7] if tier == 'quick' else [1, 3, 5, 7, 9]):
         for sc in ('Keep', 'Accept'):
             out.append(dict(name=f'arity{n}-{sc}', n=n, sc=sc, rung=0 if n <= 5 else n, weight=n ** 4, split=('enumerate', 8) if n >= 7 else None, max_orders=720 if n <= 5 else 6))
     return out
